@@ -400,8 +400,12 @@ pub fn run_c04(ctx: &Ctx) {
     let t = ctx.tier();
     enum_remove(ctx, t.pick(12, 16));
     ctx.run_proptest("remove", t.pick(40_000, 1_000_000), remove_strategy(t.pick(60, 200)), &check_remove);
+    ctx.run_proptest("lanes", t.pick(20_000, 500_000), crate::props::skip::lanes_strategy(), &crate::props::skip::check_lanes);
 }
 
 pub fn replayers() -> Vec<(&'static str, ReplayFn)> {
-    vec![("remove", |v| replay_with::<RemoveCase>(v, &check_remove))]
+    vec![
+        ("remove", |v| replay_with::<RemoveCase>(v, &check_remove)),
+        ("lanes", |v| replay_with::<crate::props::skip::LanesCase>(v, &crate::props::skip::check_lanes)),
+    ]
 }
